@@ -751,19 +751,18 @@ type Case struct {
 
 // layoutSpec bounds one family of layouts: nf batches (= TSM generations), each a set of 1..p timestamps, the union
 // of all batches being exactly {1..k} for every k ≤ kmax (so every assignment of timestamps to batches over any
-// grid of ≤ kmax values is order-isomorphic to exactly one enumerated layout). Families of phase 0 are enumerated
-// together, fewest distinct timestamps first; phase 1 (the big one) follows.
-type layoutSpec struct{ nf, p, kmax, phase int }
+// grid of ≤ kmax values is order-isomorphic to exactly one enumerated layout).
+type layoutSpec struct{ nf, p, kmax int }
 
 func layoutSpecs(thorough bool) []layoutSpec {
 	if thorough {
-		return []layoutSpec{{1, 3, 3, 0}, {2, 3, 6, 0}, {3, 3, 6, 0}, {4, 3, 4, 0}, {4, 2, 8, 0}, {5, 3, 3, 0}, {5, 2, 4, 0}, {4, 3, 5, 1}}
+		return []layoutSpec{{1, 3, 3}, {2, 3, 6}, {3, 3, 6}, {4, 3, 4}, {4, 2, 8}, {5, 3, 3}, {5, 2, 4}}
 	}
-	return []layoutSpec{{1, 3, 3, 0}, {2, 3, 4, 0}, {3, 3, 4, 0}, {4, 3, 3, 0}, {4, 2, 4, 0}}
+	return []layoutSpec{{1, 3, 3}, {2, 3, 4}, {3, 3, 4}, {4, 3, 3}, {4, 2, 4}}
 }
 
-// covers: a layout of nf batches with k distinct timestamps and at most pop points per batch belongs to family q.
-func (q layoutSpec) covers(nf, k, pop int) bool { return q.nf == nf && k <= q.kmax && pop <= q.p }
+// covers: the layouts of nf batches with k distinct timestamps and at most p points per batch all belong to family q.
+func (q layoutSpec) covers(nf, k, p int) bool { return q.nf == nf && k <= q.kmax && p <= q.p }
 
 // subsets of {1..k} with 1..p elements as bit masks (bit t-1 = timestamp t), smaller sets first.
 func subsets(k, p int) []uint {
@@ -1073,7 +1072,7 @@ func roots(thorough bool) []rootSpec {
 func TestCheck(t *testing.T) {
 	vlib.Main(t, &vlib.Check{
 		ID: "C01", Level: "model_checking",
-		Rule: "PART 1, flush layouts (histories W-batch Snap W-batch Snap ... with NO compaction): a layout is a tuple of n batches, batch i = a set of 1..p timestamps written in one WritePoints call with value i and then flushed by Engine.WriteSnapshot into its own TSM generation; enumerated are ALL tuples whose union of timestamps is exactly {1..k} (every assignment of timestamps to n batches over any grid of ≤ k values is order-isomorphic to exactly one of them, so all overlap patterns of the generations' time ranges occur: chains A∩C≠∅, C∩B≠∅, A∩B=∅ in every file order, nesting, disjoint and isolated first/last blocks, 3-point batches spanning two blocks); quick: n=1 (p≤3, k≤3), n=2 and n=3 (p≤3, k≤4), n=4 (p≤3, k≤3 and p≤2, k≤4) = 9446 layouts; thorough: n=1, n=2 and n=3 (p≤3, k≤6), n=4 (p≤3, k≤4 and p≤2 with k≤8, i.e. every order type of 4 batches of ≤2 points), n=5 (p≤3, k≤3 and p≤2, k≤4), then n=4 (p≤3, k=5); order: fewest distinct timestamps first, then fewest generations. For every layout the oracle runs twice: with the last batch still in the cache (older batches in TSM files) and after its flush: every range [a,b]⊆[0,k+1] ascending and descending through the CreateCursorIterator array cursor, and the TSM-resident part from every seek time in [0,k+1] in both directions through KeyCursor, compared with the map model (last batch wins per timestamp, strictly monotonic timestamps, no duplicates). Layouts sharing all batches but the last run on one engine (the last TSM file is taken out again with FileStore.Replace(file, nil)); engines are shared only among layouts with the same first batch; a violation is confirmed by replaying the layout from scratch on a fresh engine. Sharding unit: the tuple of the first n-1 batches. Non-trivial layout = n≥3 and the generations' time ranges neither all overlap nor are all disjoint. PART 2, histories over the alphabet {W(f,t) for t∈{1,2,3} (float field, value = running counter, so every overwrite is distinguishable), Wbatch(f,[t=3,t=1]) in one WritePoints call, W(g,t=2) on a second field of type integer, Snap (Engine.WriteSnapshot), SnapBegin / SnapEnd (the two halves of Engine.doWriteSnapshot: close WAL segment + Cache.Snapshot | Deduplicate + writeSnapshotAndCommit, so that writes, reads, compactions and a reopen happen while a cache snapshot is in flight), Compact[i..j] of every interval of ≥2 adjacent generations with the engine's fast (CompactFast) and full (CompactFull) strategies, Opt (optimize strategy at aggressive points-per-block over all files), Reopen (close + open, WAL replay)} on a real tsm1.Engine with WAL; explicit-state BFS to depth D from root layouts (themselves histories): the empty shard (D = 4 quick, 6 thorough), the 2-generation layouts W1 W2 Snap W1 W3 Snap (D = 2, 5) and Wbatch(3,1) Snap W2 W3 Snap (D = 2, 4), the 3-generation layout W1 Snap W1 W2 Snap W2 W3 Snap (D = 2, 4) and, thorough only, the 4-generation layout W1 Snap W1 W2 Snap W2 W3 Snap W3 W1 Snap (D = 2): a transition replays the whole history on a fresh engine, then reads every range [a,b]⊆[0,4] ascending and descending through CreateCursorIterator array cursors for both fields, and the TSM-resident part from every seek time in both directions through KeyCursor, and compares with a map model (latest acknowledged value per timestamp); the reached state is keyed by what the implementation holds (cache contents and, per TSM file oldest→newest, level and contents, each stored version abstracted to latest/overwritten) and expanded only once. The first 1–2 levels below each root are explored by every worker, that frontier is dealt round-robin. The build uses DefaultMaxPointsPerBlock = 2 instead of 1000 (small-constant build) so that the three timestamps of a field span two TSM blocks and block-level merging in CompactFast/CompactFull/KeyCursor is exercised. states = distinct canonical keys (part 2) + layouts (part 1, distinct by construction), transitions = executed histories, traces = histories replayed on the implementation; non-trivial = transitions whose history contains a Snap or compaction and an overwrite (part 2), see above for part 1. Budgets: part 1 35 s quick / 330 s thorough, then part 2 40 s / 540 s",
+		Rule: "PART 1, flush layouts (histories W-batch Snap W-batch Snap ... with NO compaction): a layout is a tuple of n batches, batch i = a set of 1..p timestamps written in one WritePoints call with value i and then flushed by Engine.WriteSnapshot into its own TSM generation; enumerated are ALL tuples whose union of timestamps is exactly {1..k} (every assignment of timestamps to n batches over any grid of ≤ k values is order-isomorphic to exactly one of them, so all overlap patterns of the generations' time ranges occur: chains A∩C≠∅, C∩B≠∅, A∩B=∅ in every file order, nesting, disjoint and isolated first/last blocks, 3-point batches spanning two blocks); quick: n=1 (p≤3, k≤3), n=2 and n=3 (p≤3, k≤4), n=4 (p≤3, k≤3 and p≤2, k≤4) = 9446 layouts; thorough: n=1, n=2 and n=3 (p≤3, k≤6), n=4 (p≤3, k≤4 and p≤2 with k≤8, i.e. every order type of 4 batches of ≤2 points), n=5 (p≤3, k≤3 and p≤2, k≤4) = 176525 layouts; order: fewest distinct timestamps first, then fewest generations. For every layout the oracle runs twice: with the last batch still in the cache (older batches in TSM files) and after its flush: every range [a,b]⊆[0,k+1] ascending and descending through the CreateCursorIterator array cursor, and the TSM-resident part from every seek time in [0,k+1] in both directions through KeyCursor, compared with the map model (last batch wins per timestamp, strictly monotonic timestamps, no duplicates). Layouts sharing all batches but the last run on one engine (the last TSM file is taken out again with FileStore.Replace(file, nil)); engines are shared only among layouts with the same first batch; a violation is confirmed by replaying the layout from scratch on a fresh engine. Sharding unit: the tuple of the first n-1 batches (dealt by a multiplicative hash of its running number). Non-trivial layout = n≥3 and the generations' time ranges neither all overlap nor are all disjoint. PART 2, histories over the alphabet {W(f,t) for t∈{1,2,3} (float field, value = running counter, so every overwrite is distinguishable), Wbatch(f,[t=3,t=1]) in one WritePoints call, W(g,t=2) on a second field of type integer, Snap (Engine.WriteSnapshot), SnapBegin / SnapEnd (the two halves of Engine.doWriteSnapshot: close WAL segment + Cache.Snapshot | Deduplicate + writeSnapshotAndCommit, so that writes, reads, compactions and a reopen happen while a cache snapshot is in flight), Compact[i..j] of every interval of ≥2 adjacent generations with the engine's fast (CompactFast) and full (CompactFull) strategies, Opt (optimize strategy at aggressive points-per-block over all files), Reopen (close + open, WAL replay)} on a real tsm1.Engine with WAL; explicit-state BFS to depth D from root layouts (themselves histories): the empty shard (D = 4 quick, 6 thorough), the 2-generation layouts W1 W2 Snap W1 W3 Snap (D = 2, 5) and Wbatch(3,1) Snap W2 W3 Snap (D = 2, 4), the 3-generation layout W1 Snap W1 W2 Snap W2 W3 Snap (D = 2, 4) and, thorough only, the 4-generation layout W1 Snap W1 W2 Snap W2 W3 Snap W3 W1 Snap (D = 2): a transition replays the whole history on a fresh engine, then reads every range [a,b]⊆[0,4] ascending and descending through CreateCursorIterator array cursors for both fields, and the TSM-resident part from every seek time in both directions through KeyCursor, and compares with a map model (latest acknowledged value per timestamp); the reached state is keyed by what the implementation holds (cache contents and, per TSM file oldest→newest, level and contents, each stored version abstracted to latest/overwritten) and expanded only once. The first 1–2 levels below each root are explored by every worker, that frontier is dealt round-robin. The build uses DefaultMaxPointsPerBlock = 2 instead of 1000 (small-constant build) so that the three timestamps of a field span two TSM blocks and block-level merging in CompactFast/CompactFull/KeyCursor is exercised. states = distinct canonical keys (part 2) + layouts (part 1, distinct by construction), transitions = executed histories, traces = histories replayed on the implementation; non-trivial = transitions whose history contains a Snap or compaction and an overwrite (part 2), see above for part 1. Budgets: part 1 35 s quick / 500 s thorough, then part 2 40 s / 400 s",
 		Assumptions: []string{
 			"the engine is deterministic for a given history when its background loops are off (prefixes are re-executed, not re-checked)",
 			"WAL segment layout and tsi1/series-file contents are not part of the state key (one shared tsi1 index + series file per worker, holding the single series key)",
@@ -1227,50 +1226,39 @@ func TestCheck(t *testing.T) {
 // budgets in seconds: the layouts part, then the BFS part
 const (
 	quickLayoutS, quickBFSS       = 35, 40
-	thoroughLayoutS, thoroughBFSS = 330, 540
+	thoroughLayoutS, thoroughBFSS = 500, 400
 )
 
 // runLayouts enumerates the flush layouts of this tier, simplest family first. The unit of sharding is the prefix
-// (all batches but the last one): prefix number i belongs to shard i mod n, which runs every last batch on it.
+// (all batches but the last one): each prefix belongs to one shard, which runs every last batch on it.
 func runLayouts(c *vlib.Ctx, ix *index, deadline time.Time) {
 	lr := &layoutRun{ix: ix}
 	defer lr.close()
 	pidx := int64(0)
 	t0, mineN := time.Now(), 0
 	specs := layoutSpecs(c.Thorough())
-	kmax, phases := 0, 0
+	kmax := 0
 	for _, sp := range specs {
 		if sp.kmax > kmax {
 			kmax = sp.kmax
-		}
-		if sp.phase+1 > phases {
-			phases = sp.phase + 1
 		}
 	}
 	type job struct {
 		k, si int
 	}
-	var jobs []job // processing order: phase, then fewest distinct timestamps, then fewest generations
-	for ph := 0; ph < phases; ph++ {
-		for k := 1; k <= kmax; k++ {
-			for si, sp := range specs {
-				if sp.phase == ph && k <= sp.kmax {
-					jobs = append(jobs, job{k, si})
-				}
+	var jobs []job // processing order: fewest distinct timestamps first, then fewest generations
+	for k := 1; k <= kmax; k++ {
+		for si, sp := range specs {
+			if k <= sp.kmax {
+				jobs = append(jobs, job{k, si})
 			}
 		}
 	}
 	for _, jb := range jobs {
-		k, si, sp := jb.k, jb.si, specs[jb.si]
-		// families processed before this one at the same k: their layouts are not run twice
-		var before []layoutSpec
-		for qi, q := range specs {
-			if q.phase < sp.phase || (q.phase == sp.phase && qi < si) {
-				before = append(before, q)
-			}
-		}
+		k, sp := jb.k, specs[jb.si]
+		// a family listed before this one may contain all of its layouts with k timestamps: not run twice
 		whole := false
-		for _, q := range before {
+		for _, q := range specs[:jb.si] {
 			whole = whole || q.covers(sp.nf, k, sp.p)
 		}
 		if whole {
@@ -1281,7 +1269,9 @@ func runLayouts(c *vlib.Ctx, ix *index, deadline time.Time) {
 		lasts := subsets(k, sp.p)
 		forPrefixes(sp.nf-1, k, sp.p, func(masks []uint, union uint) bool {
 			pidx++
-			if !c.Mine(pidx) {
+			// deal by a scrambled prefix number: plain round-robin correlates with the tuple structure (the number of
+			// subsets per position) and leaves some shards with systematically more last batches per prefix
+			if !c.Mine(int64(uint64(pidx) * 0x9E3779B97F4A7C15 >> 40)) {
 				return true
 			}
 			prefix := make([][]int64, len(masks))
@@ -1291,13 +1281,6 @@ func runLayouts(c *vlib.Ctx, ix *index, deadline time.Time) {
 			synced := false
 			for _, lm := range lasts {
 				if union|lm != full {
-					continue
-				}
-				dup, pop := false, maxPop(masks, lm)
-				for _, q := range before {
-					dup = dup || q.covers(sp.nf, k, pop)
-				}
-				if dup {
 					continue
 				}
 				if c.Expired() || time.Now().After(deadline) {
@@ -1346,16 +1329,6 @@ func runLayouts(c *vlib.Ctx, ix *index, deadline time.Time) {
 		}
 	}
 	c.Logf("shard %d: %d flush layouts in %v", c.Shard, mineN, time.Since(t0))
-}
-
-func maxPop(masks []uint, last uint) int {
-	n := popcount(last)
-	for _, m := range masks {
-		if p := popcount(m); p > n {
-			n = p
-		}
-	}
-	return n
 }
 
 // interesting: the history flushes or compacts and overwrites some timestamp.
